@@ -106,6 +106,12 @@ def decodeUgrid (s : USource) : Except String Table :=
   let t := replaceFill fv s.cells
   .ok (shift (startOf s.startAttr t) t)
 
+/-- `_read_ugrid`: every connectivity variable the topology names (`face_node`, `face_edge`,
+    `face_face`, `edge_node`, `edge_face`, `node_edge`, `node_face`) is standardised ON ITS OWN —
+    from its own values, `_FillValue`, `start_index` and dtype; nothing is carried from one table
+    to the next. -/
+def decodeUgridAll (srcs : List USource) : List (Except String Table) := srcs.map decodeUgrid
+
 /-- two's-complement wrap-around of `int64` arithmetic -/
 def wrap64 (x : Int) : Int := (x + 9223372036854775808) % 18446744073709551616 - 9223372036854775808
 
